@@ -6,7 +6,7 @@ import time
 from .loader import AnalysisError
 
 VERIF = os.path.dirname(os.path.dirname(os.path.abspath(__file__)))
-EVIDENCE_DIR = os.path.join(VERIF, 'evidence')
+EVIDENCE_DIR = os.environ.get('SA_EVIDENCE_DIR') or os.path.join(VERIF, 'evidence')
 VIOL_DIR = os.path.join(EVIDENCE_DIR, 'violations')
 KNOWN_FILE = os.path.join(VERIF, 'known_findings.json')
 
